@@ -183,6 +183,26 @@ def compound_pair_specs(max_degree: int, core_only: bool = True, limit: int = 0,
     return pairs
 
 
+def power_pair_specs(exponents: Sequence[int] = (2, 3, -1, -2), per_dim: int = 0) -> List[Tuple[Any, Any]]:
+    """u**e -> v**e for every ordered pair of named offset-free units of a fundamental
+    dimension (multi-hop paths under an exponent are where path scaling can go wrong)."""
+    import measured
+
+    units = families.offset_free(families.named_units())
+    out = []
+    for dim, us in families.by_dimension(units).items():
+        if sum(abs(e) for e in dim.exponents) != 1:
+            continue
+        us = us[:per_dim] if per_dim else us
+        for a in us:
+            for b in us:
+                if a is b:
+                    continue
+                for e in exponents:
+                    out.append((families.spec_of(a ** e), families.spec_of(b ** e)))
+    return out
+
+
 def oracle_with_readings() -> Any:
     """The oracle plus one alternative reading per declaration of every C09 core."""
     orc = families.orc()
